@@ -270,3 +270,5 @@ func (g *G) LoadInt(z string, neg bool, v *big.Int, e10 int64, p, m int) {
 	d, tz := trimZeros(s)
 	g.Load(z, neg, d, int64(len(d)+tz)+e10, p, m)
 }
+
+func itoa(v int64) string { return strconv.FormatInt(v, 10) }
